@@ -526,12 +526,18 @@ func expectedTypeName(e pgen.Elem) string {
 	case "zigzag64":
 		return "sint64"
 	case "fixed32":
-		if e.Kind == pgen.Uint32 {
+		switch e.Kind {
+		case pgen.Uint32:
 			return "fixed32"
+		case pgen.Int32:
+			return "sfixed32"
 		}
 	case "fixed64":
-		if e.Kind == pgen.Uint64 {
+		switch e.Kind {
+		case pgen.Uint64:
 			return "fixed64"
+		case pgen.Int64:
+			return "sfixed64"
 		}
 	}
 	return kindName[e.Kind]
